@@ -78,7 +78,7 @@ def run_freq(cfg, values=None, ctx=None):
     n, active, num, path, target = cfg['n'], cfg['active'], cfg['num'], cfg['path'], cfg['target']
     sort, reduced = cfg.get('sort', True), cfg.get('reduced', False)
     W = FreqWorld(V, ctx)
-    K = sym_matrix('K', n, active, V)
+    K = sym_matrix('K', n, active, V, symmetric=not cfg.get('unsymmetric_K'))
     M = sym_matrix('M', n, active, V)
     if ctx is not None:
         # generic matrices: every entry on the active set is non-zero (a structurally null column is what 'null' means)
@@ -368,6 +368,11 @@ def configs(tier, seed):
                                         'group': '%s:%s' % (target, path), 'variant': '%s/num=%d/n=%d/u=%d/sort=%d' % (path, num, n, u, sort)})
             out.append({'target': target, 'n': 6, 'active': [0, 2, 5], 'num': 2, 'path': 'dense', 'sort': True,
                         'group': '%s:dense-sorted' % target, 'variant': 'dense/num=2/n=6/u=3/sort=1'})
+            # sparse path with a stiffness that is not symmetric (stiffness + aerodynamic matrix below the flutter point): the pairs
+            # must be right eigenpairs of the matrices given, with or without null amplitudes
+            for active in (list(range(5)), [0, 2, 3, 5]):
+                out.append({'target': target, 'n': 6 if len(active) == 4 else 5, 'active': active, 'num': 2, 'path': 'sparse', 'sort': False, 'unsymmetric_K': True,
+                            'group': '%s:sparse-unsymmetric-stiffness' % target, 'variant': 'sparse/unsymmetric-K/u=%d' % len(active)})
             # the sort keys are ROUNDED values: two returned frequencies, the rounding modelled (fresh integer within 1/2)
             out.append({'target': target, 'n': 5, 'active': [1, 3], 'num': 2, 'path': 'dense', 'sort': True, 'rounding': True,
                         'group': '%s:dense-sorted-rounded-keys' % target, 'variant': 'dense/num=2/n=5/u=2/sort=1/rounded-keys'})
